@@ -34,7 +34,13 @@ def required_cells(tier):
     return {"system:td": 5, "system:const": 5, "coupling:diag": 3,
             "coupling:rotated": 3, "coupling:degenerate": 2, "unique": 3,
             "subdiv:None": 3, "prefix": 5, "ladder": 2, "trace": 3,
-            "start!=0": 3, "tau:set": 2, "K:set": 5}
+            "start!=0": 3, "tau:set": 2, "K:set": 5,
+            "pt-route:file": 1, "pt-route:auto-file": 1,
+            "pt-route:file+reopen-simple": 1, "pt-route:reimport-file": 1,
+            "pt-route&non-diagonal-coupling": 4,
+            "initial-state-layout:fortran": 3,
+            "initial-state-layout:transposed-view": 3,
+            "initial-state-layout:strided": 3}
 
 
 def cases(tier, seed):
@@ -134,12 +140,41 @@ def _pt(g, params, nsteps=None):
                                   unique=g["unique"], progress_type="silent")
 
 
+def _layout(rho, kind):
+    """The same density matrix in another memory layout."""
+    if kind == "fortran":
+        return np.asfortranarray(rho)
+    if kind == "transposed-view":
+        return np.ascontiguousarray(rho.T).T
+    if kind == "strided":
+        big = np.zeros((2 * rho.shape[0], 2 * rho.shape[1]), complex)
+        big[::2, ::2] = rho
+        return big[::2, ::2]
+    return rho
+
+
 def _dyn(g, sysd, pt, num_steps=None):
     import oqupy
     return oqupy.compute_dynamics(
-        sysd["oq"], g["rho0"], start_time=g["start"], process_tensor=pt,
+        sysd["oq"], _layout(g["rho0"], g.get("layout")),
+        start_time=g["start"], process_tensor=pt,
         num_steps=num_steps, subdiv_limit=g["subdiv"],
         progress_type="silent")
+
+
+def _pt_dyn_routed(g, sysd, params, route):
+    """PT-TEMPO + compute_dynamics with the process tensor computed straight
+    into a file / re-opened / re-imported (vp.lib.run_pt_bath)."""
+    import oqupy
+    from vp import lib
+    bath = oqupy.Bath(g["oper"], gen.make_power_law(g["p"]))
+    fb = {"file": True, "auto-file": "auto",
+          "file+reopen-simple": True}.get(route, False)
+    re = {"reimport-file": "file"}.get(route)
+    return lib.run_pt_bath(
+        sysd["oq"], bath, _layout(g["rho0"], g.get("layout")), g["start"],
+        g["dt"], g["nsteps"], params, g["unique"], g["subdiv"], fb, re,
+        reopen="simple" if route == "file+reopen-simple" else None)
 
 
 def run_case(case):
@@ -154,6 +189,9 @@ def run_case(case):
     dyn_t = _tempo(g, g["sys_a"], params)
     log_a = list(probe_a.log)
     pt = _pt(g, params)
+    g["layout"] = [None, "fortran", None, "transposed-view", "strided"][i % 5]
+    if g["layout"]:
+        cells.append("initial-state-layout:" + g["layout"])
     dyn_p = _dyn(g, g["sys_b"], pt)
     log_b = list(probe_b.log)
     st, sp = np.array(dyn_t.states), np.array(dyn_p.states)
@@ -256,6 +294,30 @@ def run_case(case):
                     "what": f"num_steps={n} run differs from the full run's "
                             f"first steps by {e2:.3e}",
                     "mechanism": "prefix-self", "detail": {}})
+
+    # the same process tensor computed straight into a file / re-opened /
+    # exported and imported again (the coupling operator is non-diagonal in
+    # most cases: the stored transforms matter)
+    if i % 4 == 1 and not violations:
+        route = ["file", "auto-file", "file+reopen-simple",
+                 "reimport-file"][(i // 4) % 4]
+        cells.append("pt-route:" + route)
+        if g["ckind"] != "diag":
+            cells.append("pt-route&non-diagonal-coupling")
+        d_r = np.array(_pt_dyn_routed(g, g["sys_b"], params, route).states)
+        monitors["routes_compared"] = monitors.get("routes_compared", 0) + 1
+        if d_r.shape != st.shape:
+            violations.append({"what": f"route {route}: lengths differ",
+                               "mechanism": "length", "detail": {}})
+        else:
+            e = float(np.abs(d_r - st).max())
+            worst = max(worst, e / bound)
+            if e > bound:
+                violations.append({
+                    "what": f"PT-TEMPO process tensor via {route} "
+                            f"({g['ckind']} coupling): dynamics differ from "
+                            f"TEMPO by {e:.3e} > {bound:.3e}",
+                    "mechanism": "tempo-vs-pt", "detail": {"route": route}})
 
     # tolerance ladder
     if i % 6 == 1:
